@@ -243,7 +243,8 @@ def fkey(f):
     return '%s|%s|%s' % (f['q'], f.get('sig', ''), file[i + 1:] if i >= 0 else os.path.basename(file))
 
 
-PURE_CALL = re.compile(r'^(operator[&|^~!=<>+\-*/%]+|get[A-Z_]\w*|is[A-Z_]\w*|has[A-Z_]\w*|size|operator\[\]|min|max|static_cast|signExtend2sCompl|unsigned32ToSigned2sCompl|Log2|maskLog2|alignSize|rv[ic]|rvrd|rvrs[12]|rvcrs|reg[A-Z]\w*)$')
+PURE_Q = set()
+PURE_CALL = re.compile(r'^(operator[&|^~!=<>+\-*/%]+|isZeroOrPowerOf2|size|operator\[\]|min|max|static_cast|signExtend2sCompl|unsigned32ToSigned2sCompl|Log2|maskLog2|alignSize|rv[ic]|rvrd|rvrs[12]|rvcrs|reg[A-Z]\w*)$')
 
 
 def _written_things(f):
@@ -277,7 +278,7 @@ def _pure_expr(n, written_ids, written_paths):
             return False
         if k == 'Call':
             nm = x.get('name') or ''
-            if not (PURE_CALL.match(nm) or x.get('builtin') and nm.startswith('__builtin_') and 'mem' not in nm):
+            if not (PURE_CALL.match(nm) or x.get('fn') in PURE_Q or x.get('builtin') and nm.startswith('__builtin_') and 'mem' not in nm):
                 return False
         if k == 'Ref' and x.get('id') is not None and x['id'] in written_ids:
             return False
@@ -777,7 +778,6 @@ class Facts:
             u = self.unit(rel)
             for f in u['functions']:
                 f['_unit'] = rel
-                canonicalise_locals(f, pinned, self.config)
                 # prefer the definition in the unit whose name matches the file (stable choice)
                 self._funcs.setdefault(f['q'], []).append(f)
             for g in u['globals']:
@@ -793,6 +793,20 @@ class Facts:
                 self._enums.setdefault(e['q'], e)
             for m in u['macros']:
                 self._macros.setdefault(m['name'], m)
+        # functions whose calls may be duplicated or moved by the normalisations: const member functions and one-line getters without effects
+        for q, fs in self._funcs.items():
+            for f in fs:
+                b = f.get('body')
+                if b is None:
+                    continue
+                st = [x for x in (b['s'] if b['k'] == 'Compound' else [b]) if x['k'] != 'Null']
+                one_ret = len(st) == 1 and st[0]['k'] == 'Return' and is_node(st[0].get('e')) and not any(
+                    y['k'] in ('Call', 'Assign', 'CAssign', 'New', 'Throw') or (y['k'] == 'Un' and ('++' in y.get('op', '') or '--' in y.get('op', ''))) for y in walk(st[0]['e']))
+                if one_ret or str(f.get('sig', '')).rstrip().endswith('const'):
+                    PURE_Q.add(q)
+        for q, fs in self._funcs.items():
+            for f in fs:
+                canonicalise_locals(f, pinned, self.config)
         inline_new_helpers(self, pinned)
 
     def func(self, q, unit=None):
